@@ -23,7 +23,10 @@ ASSUMPTIONS = [
 MANIFEST_TEXT = ("Schema 2.x: for all seven versions and every snapshot, writeSnap/tablePut/readSnap (mirror of "
                  "snapshot_to_row, the row store and snapshot()) returns exactly Spec.normalize, rejects exactly the "
                  "snapshots normalize rejects (never ub), normalize is idempotent and the identity on representable "
-                 "fields; tied by differential replay of generated snapshots (snap + raw Track row + rewrite of the "
+                 "fields; total table-level statements (create / update incl. the UNIQUE(path) collision, the absent track, "
+                 "the second write on the same track) on the statement-level Track table; for each of the seven versions "
+                 "tablePut is proved equal to get∘add / get∘update of C18's table model instantiated with the column lists "
+                 "regenerated from track_table.cpp; tied by differential replay of generated snapshots (snap + raw Track row + rewrite of the "
                  "read-back) with the Spec evaluated on the real library's answers.")
 TRUSTED_EXTRA = []
 
